@@ -103,6 +103,10 @@ def gen_rt_case(rng):
     case = rt_case(shape, rng.choice("CF"), form, mask, rng.random() < 0.5)
     if rng.random() < 0.12:
         case["big"] = True   # int64 values beyond 2**53 (nanosecond time stamps and the like): not representable as float64
+    if kind == "partial" and form == "arg" and rng.random() < 0.4:
+        # the mask *array* was used for another round trip before, with other content (updated in place since): a round trip
+        # is about the mask's content at the time of the call
+        case["reused_mask"] = True
     return case
 
 
@@ -152,6 +156,12 @@ def run_rt(case):
     data, x, arg, mask = rt_payload(case)
     out = {"data": data}
     try:
+        if case.get("reused_mask") and isinstance(mask, np.ndarray) and mask.any() and not mask.all():
+            target = mask.copy()
+            mask[...] = np.roll(target.ravel(), 1).reshape(target.shape)    # same number of hidden cells, other cells
+            c0 = to_compressed(np.asarray(data, dtype=float).copy(), order=case["order"], mask=mask)
+            from_compressed(c0, tuple(case["shape"]), order=case["order"], mask=mask)
+            mask[...] = target
         c = to_compressed(x, order=case["order"], mask=arg)
         out["c"] = c
         r = from_compressed(c, tuple(case["shape"]), order=case["order"], mask=mask)
